@@ -356,8 +356,8 @@ def exec_tg(case):
 
 
 CHECKS = [
-    Check("all_dags", exec_dag, enumerate=enum_dags, exhaustive=True, budget={"quick": 0, "thorough": 0}),
-    Check("random_dags", exec_dag, strategy=random_dag_strategy, budget={"quick": 400, "thorough": 20000}),
-    Check("cyclic", exec_cyclic, strategy=cyclic_strategy, budget={"quick": 500, "thorough": 20000}),
-    Check("task_job_graphs", exec_tg, strategy=tg_strategy, budget={"quick": 600, "thorough": 30000}),
+    Check("all_dags", case_timeout=60, timeout_is_violation=True, execute=exec_dag, enumerate=enum_dags, exhaustive=True, budget={"quick": 0, "thorough": 0}),
+    Check("random_dags", case_timeout=60, timeout_is_violation=True, execute=exec_dag, strategy=random_dag_strategy, budget={"quick": 400, "thorough": 20000}),
+    Check("cyclic", case_timeout=60, timeout_is_violation=True, execute=exec_cyclic, strategy=cyclic_strategy, budget={"quick": 500, "thorough": 20000}),
+    Check("task_job_graphs", case_timeout=60, timeout_is_violation=True, execute=exec_tg, strategy=tg_strategy, budget={"quick": 600, "thorough": 30000}),
 ]
